@@ -76,6 +76,7 @@ const EXTRA_TOKENS: &[&[u8]] = &[
     b"@@ -7,0 +7,0 @@\n",
     b"@@ -7,0 +6,0 @@\n",
     b"@@ -2,2 +2,2 @@ fn\n",
+    b"@@ -2,2 +2,2 @@ \n",
     b" y\n",
     b"+y\n",
     b"-y\n",
